@@ -121,6 +121,7 @@ def wallet_cases(draw):
 TAMPER_OUT = ["out_spk_attacker_p2sh", "out_spk_attacker_p2wsh", "out_spk_p2pkh", "out_spk_p2wpkh",
               "out_spk_p2tr", "out_script_foreign", "out_script_and_spk_foreign", "out_foreign_fingerprint",
               "out_wrong_path", "out_keys_from_one_cosigner", "out_changed_quorum", "second_change_output",
+              "out_noncanonical_script_all_keys", "out_noncanonical_script_extra_ops",
               "spend_gets_change_metadata", "out_amount_changed"]
 TAMPER_IN = ["in_foreign_script", "in_wrong_path", "in_foreign_fingerprint", "in_key_swapped",
              "in_prev_tx_amount", "in_prev_tx_other", "in_changed_quorum_script"]
@@ -388,6 +389,23 @@ def check_tamper(case, ctx):
             j = w % len(pm["inputs"])
             script = Model.multisig(m2, model.secs(0, info["prevs"][j]["idx"]))
             set_kv(pm["inputs"][j], IN_SCRIPT_KEY, script)
+    elif t in ("out_noncanonical_script_all_keys", "out_noncanonical_script_extra_ops"):
+        # the change script still starts with OP_m, ends with OP_n OP_CHECKMULTISIG and contains every genuine
+        # change key (so all derivations check out), but it is NOT the m-of-n over those keys
+        keys = sorted(model.secs(1, case["change_idx"]))
+        if t == "out_noncanonical_script_all_keys":
+            if n < 2:
+                raise Discard("needs n >= 2")
+            # OP_m k1..k(n-1) <drop them> OP_1 a1.. k_n OP_n CHECKMULTISIG : really 1-of-n over attacker keys
+            toks = [0x50 + m] + keys[:-1] + [0x75] * (n - 1) + [0x75, 0x51] + att_secs[: n - 1] + [keys[-1]] \
+                + [0x50 + n, 0xAE]
+        else:
+            # canonical prefix, then OP_DROP OP_1: anyone can spend
+            toks = [0x50 + m] + keys + [0x50 + n, 0xAE, 0x75, 0x51, 0x50 + n, 0xAE]
+        script = txser.script_bytes(toks)
+        tx["outs"][ci]["spk"] = Model.spk(script, kind)
+        psbtmap.set_tx(pm, tx)
+        set_kv(pm["outputs"][ci], SCRIPT_KEY, script)
     elif t == "second_change_output":
         # a second output with valid change metadata (different change index)
         idx2 = case["change_idx"] + 1
